@@ -241,19 +241,22 @@ theorem src_DHTPut_truthful (params : Src.kademlia.DHTPutParamsT) (hAsk : ∀ n 
   Src.DHTPut_good params hAsk res err h
 
 /-- ⊢ regenerated `DHTFindNode`, truthful: the node reported as closest was passed to the operation's callback, no
-    node passed to the callback is nearer to the target (`visited` are the ids passed to the callback), and the
-    error is raised exactly when the reported node is not the target. -/
+    node passed to the callback is nearer to the target (`visited` are the ids passed to the callback), every visited
+    id belongs to an initial peer or to a record that passed the caller's validation, and the error is raised
+    exactly when the reported node is not the target. -/
 theorem src_DHTFindNode_closest_is_min (params : Src.kademlia.DHTFindNodeParamsT)
     (hAsk : ∀ n r, ∃ a, params.Ask n r = .ok a)
     (hVal : ∀ x, ∃ b, (params.Validate.getD (fun _ => pure true)) x = .ok b)
     (res : Src.kademlia.DHTFindNodeResultT) (err : Go.Err) (h : Src.kademlia.DHTFindNode params = .ok (res, err)) :
     (∃ visited : List Go.Bytes,
-      (visited = [] ∧ res.Closest = Src.zero32) ∨
-      (res.Closest ∈ visited ∧
+      ((visited = [] ∧ res.Closest = Src.zero32) ∨
+       (res.Closest ∈ visited ∧
         ∀ c ∈ visited, Kad.distanceLt (SrcKad.nb params.Target) (SrcKad.nb c) (SrcKad.nb res.Closest) = false)) ∧
+      ∀ id ∈ visited, ∃ x : Src.kademlia.NodeInfoT, x.ID = id ∧
+        (x ∈ params.Initial ∨ (params.Validate.getD (fun _ => pure true)) x = .ok true)) ∧
     (err.isSome ↔ res.Closest ≠ params.Target) := by
-  obtain ⟨⟨hv, visited, hG⟩, he⟩ := Src.DHTFindNode_good params hAsk hVal res err h
-  refine ⟨⟨visited, ?_⟩, he⟩
+  obtain ⟨⟨hv, visited, hG, hVis⟩, he⟩ := Src.DHTFindNode_good params hAsk hVal res err h
+  refine ⟨⟨visited, ?_, hVis⟩, he⟩
   rcases hG with ⟨_, h1, h2⟩ | ⟨_, h1, h2⟩
   · exact .inl ⟨h1, h2⟩
   · exact .inr ⟨h1, h2⟩
